@@ -171,6 +171,7 @@ impl<'s> Cx<'s> {
                 loops: Vec::new(),
                 r6n: 0,
                 r2n: 0,
+                r12n: 0,
             };
             fv.visit_block(b);
             v["loops"] = json!(fv.loops);
@@ -353,6 +354,7 @@ struct FnVisitor<'c, 's> {
     loops: Vec<Value>,
     r6n: usize,
     r2n: usize,
+    r12n: usize,
 }
 
 /// Collect `&ident` reference sub-patterns: (start, end, ident, is_mut).
@@ -418,48 +420,76 @@ fn is_path_ending(e: &syn::Expr, tail: &[&str]) -> bool {
 
 impl<'c, 's, 'ast> Visit<'ast> for FnVisitor<'c, 's> {
     fn visit_expr_for_loop(&mut self, f: &'ast syn::ExprForLoop) {
+        // R12 (+R1, R2): `for P in E { body }` is rewritten to its definition over a sequence cursor:
+        //   { let mut vx_itN = IntoIterator::into_iter(E); while let Some(P') = vx_itN.next() { [binders] body } }
+        // which is the language's own desugaring of `for`;
+        // (Verus: "for-loops do not yet support continue"; one uniform loop form for all invariants.)
         let attrs_end = f.attrs.iter().map(|a| br(a.span()).1).max().unwrap_or(0);
+        let ord = self.loops.len();
         self.loop_rec("for", f.span(), attrs_end, &f.body, f.label.is_some());
+        let n = self.r12n;
+        self.r12n += 1;
         let bo = br(f.body.brace_token.span.open()).0;
-        // R2: for (i, P) in E.enumerate()
-        let mut handled_pat = false;
+        let (fs, fe) = br(f.span());
+        let fs = fs.max(attrs_end);
+        let (es, ee) = br(f.expr.span());
+        let mut pat: &syn::Pat = &f.pat;
+        let mut expr_end = ee;
+        let mut prologue = String::new();
+        let mut pre = String::new();
+        // R2: (i, P) in E.enumerate()
         if let syn::Expr::MethodCall(mc) = &*f.expr {
             if mc.method == "enumerate" && mc.args.is_empty() {
                 if let syn::Pat::Tuple(t) = &*f.pat {
                     if t.elems.len() == 2 {
                         if let syn::Pat::Ident(ip) = &t.elems[0] {
-                            let n = self.r2n;
-                            self.r2n += 1;
                             let i = ip.ident.to_string();
                             let ctr = format!("{}__n{}", i, n);
-                            let (fs, _) = br(f.span());
-                            let fs = fs.max(attrs_end);
-                            self.cx
-                                .edit(fs, fs, format!("let mut {}: usize = 0; ", ctr), "R2");
-                            let (ts, te) = br(t.span());
-                            let (ps, pe) = br(t.elems[1].span());
-                            self.cx.edit(ts, ps, "", "R2");
-                            self.cx.edit(pe, te, "", "R2");
-                            let (_, re) = br(mc.receiver.span());
-                            let (_, me) = br(mc.span());
-                            self.cx.edit(re, me, "", "R2");
-                            self.cx.edit(
-                                bo + 1,
-                                bo + 1,
-                                format!(" let {} = {}; {} += 1;", i, ctr, ctr),
-                                "R2",
-                            );
-                            self.r1_block(&t.elems[1], bo);
-                            handled_pat = true;
+                            pre = format!("let mut {}: usize = 0; ", ctr);
+                            prologue = format!(" let {} = {}; {} += 1;", i, ctr, ctr);
+                            pat = &t.elems[1];
+                            expr_end = br(mc.receiver.span()).1;
+                            self.cx.edit(expr_end, ee, "", "R2");
                         }
                     }
                 }
             }
         }
-        if !handled_pat {
-            self.r1_block(&f.pat, bo);
+        // pattern text with R1 applied
+        let (ps, pe) = br(pat.span());
+        let mut ptxt = self.cx.text(ps, pe).to_string();
+        let mut refs = Vec::new();
+        ref_pats(pat, &mut refs);
+        refs.sort_by(|a, b| b.0.cmp(&a.0));
+        for (s, e, id) in refs {
+            ptxt.replace_range(s - ps..e - ps, &format!("{}__r", id));
+            prologue.push_str(&format!(" let {} = *{}__r;", id, id));
         }
-        visit::visit_expr_for_loop(self, f);
+        self.cx.edit(
+            fs,
+            es,
+            format!("{{ {}let mut vx_it{} = ::core::iter::IntoIterator::into_iter(", pre, n),
+            "R12",
+        );
+        self.cx.edit(
+            ee,
+            bo,
+            format!(
+                "); /*@L12:{}*/ while let Some({}) = vx_it{}.next() ",
+                ord, ptxt, n
+            ),
+            "R12",
+        );
+        if !prologue.is_empty() {
+            self.cx.edit(bo + 1, bo + 1, prologue, "R12");
+        }
+        self.cx.edit(fe, fe, " }", "R12");
+        if let Some(l) = self.loops.last_mut() {
+            l["r12"] = json!(n);
+        }
+        // descend into iterated expression and body only (the pattern was copied)
+        self.visit_expr(&f.expr);
+        self.visit_block(&f.body);
     }
 
     fn visit_expr_while(&mut self, w: &'ast syn::ExprWhile) {
